@@ -18,12 +18,12 @@ import (
 // emuQuota: number of cases per (curve, op) in the quick tier; thorough runs
 // the complete directed list (and a second list drawn from another stream).
 var emuQuickQuota = map[string]map[string]int{
-	"secp256k1": {"AddUnified": 14, "Add": 8, "Neg": 2, "AssertIsOnCurve": 5, "ScalarMul": 34, "ScalarMulBase": 12, "JointScalarMulBase": 12, "MultiScalarMul": 6, "MultiScalarMulFold": 4},
-	"P-256":     {"AddUnified": 14, "Add": 8, "Neg": 2, "AssertIsOnCurve": 5, "ScalarMul": 30, "ScalarMulBase": 12, "JointScalarMulBase": 10, "MultiScalarMul": 6, "MultiScalarMulFold": 4},
-	"BN254":     {"AddUnified": 14, "Add": 8, "Neg": 2, "AssertIsOnCurve": 5, "ScalarMul": 30, "ScalarMulBase": 10, "JointScalarMulBase": 8, "MultiScalarMul": 5, "MultiScalarMulFold": 3, "ECAdd": 8, "ECMul": 12},
-	"P-384":     {"AddUnified": 8, "Add": 4, "Neg": 1, "AssertIsOnCurve": 3, "ScalarMul": 12, "ScalarMulBase": 5, "JointScalarMulBase": 4, "MultiScalarMul": 2, "MultiScalarMulFold": 2},
-	"BLS12-381": {"AddUnified": 8, "Add": 4, "Neg": 1, "AssertIsOnCurve": 3, "ScalarMul": 12, "ScalarMulBase": 5, "JointScalarMulBase": 4, "MultiScalarMul": 2, "MultiScalarMulFold": 2},
-	"BW6-761":   {"AddUnified": 6, "Add": 3, "Neg": 1, "AssertIsOnCurve": 2, "ScalarMul": 6, "ScalarMulBase": 2, "JointScalarMulBase": 2, "MultiScalarMul": 1, "MultiScalarMulFold": 1},
+	"secp256k1": {"AddUnified": 12, "Add": 6, "Neg": 2, "AssertIsOnCurve": 5, "ScalarMul": 30, "ScalarMulBase": 10, "JointScalarMulBase": 8, "MultiScalarMul": 4, "MultiScalarMulFold": 3},
+	"P-256":     {"AddUnified": 12, "Add": 6, "Neg": 2, "AssertIsOnCurve": 5, "ScalarMul": 28, "ScalarMulBase": 10, "JointScalarMulBase": 7, "MultiScalarMul": 4, "MultiScalarMulFold": 3},
+	"BN254":     {"AddUnified": 12, "Add": 6, "Neg": 2, "AssertIsOnCurve": 5, "ScalarMul": 26, "ScalarMulBase": 9, "JointScalarMulBase": 6, "MultiScalarMul": 3, "MultiScalarMulFold": 2, "ECAdd": 8, "ECMul": 10},
+	"P-384":     {"AddUnified": 8, "Add": 4, "Neg": 1, "AssertIsOnCurve": 3, "ScalarMul": 12, "ScalarMulBase": 5, "JointScalarMulBase": 2, "MultiScalarMul": 1, "MultiScalarMulFold": 1},
+	"BLS12-381": {"AddUnified": 8, "Add": 4, "Neg": 1, "AssertIsOnCurve": 3, "ScalarMul": 12, "ScalarMulBase": 5, "JointScalarMulBase": 2, "MultiScalarMul": 1, "MultiScalarMulFold": 1},
+	"BW6-761":   {"AddUnified": 6, "Add": 3, "Neg": 1, "AssertIsOnCurve": 2, "ScalarMul": 8, "ScalarMulBase": 2, "JointScalarMulBase": 1, "MultiScalarMul": 0, "MultiScalarMulFold": 0},
 	"STARK":     {"AddUnified": 4, "Add": 2, "Neg": 1, "AssertIsOnCurve": 2, "ScalarMul": 8, "ScalarMulBase": 3, "JointScalarMulBase": 2, "MultiScalarMul": 1, "MultiScalarMulFold": 1},
 }
 
